@@ -3,7 +3,7 @@
    power-on state; h gives the four hidden trigger bits (bit0 processor prev-clk, bit1 processor prev-rst, bit2 memory
    prev-clk, bit3 memory prev-rst).  Output mirrors harness/tb_harness.cpp:
      END returned|threw|ub|nofuel / RC <exit code> / CONSUMED <n> / OUT <n> <bytes to the console> /
-     STATE pc= areg= breg= oreg= image_intact= time= cycles=   (final testbench state) *)
+     STATE pc= areg= breg= oreg= image_intact= rest_zero= time= cycles=   (final testbench state) *)
 open Hvutil
 module SL = Stdlib.List
 module SS = Stdlib.String
@@ -43,8 +43,10 @@ let main () =
   let ini = { TbModel.i_pc = zi !pc; i_areg = zi !a; i_breg = zi !b; i_oreg = zi !o; i_bg = bg; i_hidden = hid } in
   if not (TbModel.file_loads bytes) then begin
     (* load() throws: main prints the error and returns 1 without running *)
-    P.printf "END loaderror\nRC 1\nCONSUMED 0\nOUT 0\nSTATE pc=0 areg=0 breg=0 oreg=0 image_intact=0 time=0 cycles=0\n"; exit 0 end;
-  let st0 = TbModel.power_on ini bytes in
+    P.printf "END loaderror\nRC 1\nCONSUMED 0\nOUT 0\nSTATE pc=0 areg=0 breg=0 oreg=0 image_intact=0 rest_zero=0 time=0 cycles=0\n"; exit 0 end;
+  (* power-on state + load(): with the current constants load() clears the memory, so fill= has no effect any more;
+     with previous/legacy the words outside the image keep the fill *)
+  let st0 = TbModel.power_on params ini bytes in
   (* planted memory words (after load, as the harness does) *)
   let st0 = SL.fold_left (fun st (w, v) -> TbModel.set_tmem st (WMap.wr st.TbModel.t_s.RtlSem.r_mem (zi w) (zi v))) st0 (SL.rev !mems) in
   let cons = let bf = Buffer.create 64 in (try while true do Buffer.add_channel bf stdin 1 done with End_of_file -> ()); Buffer.contents bf in
@@ -64,34 +66,30 @@ let main () =
   P.printf "END %s\nRC %d\nCONSUMED %d\nOUT %d" ends rc (ncons - SL.length inp'.Isa.console) (Buffer.length out);
   SS.iter (fun c -> P.printf " %d" (Char.code c)) (Buffer.contents out);
   let s = st.TbModel.t_s in
-  P.printf "\nSTATE pc=%d areg=%d breg=%d oreg=%d image_intact=%d time=%d cycles=%d\n" (iz s.RtlSem.r_pc) (iz s.RtlSem.r_areg) (iz s.RtlSem.r_breg)
-    (iz s.RtlSem.r_oreg) (if !intact then 1 else 0) (iz st.TbModel.t_time) (iz st.TbModel.t_cycles)
+  let rest_zero = ref true in
+  for w = SL.length words to 524287 do if iz (WMap.rd m (zi w)) <> 0 then rest_zero := false done;
+  P.printf "\nSTATE pc=%d areg=%d breg=%d oreg=%d image_intact=%d rest_zero=%d time=%d cycles=%d\n" (iz s.RtlSem.r_pc) (iz s.RtlSem.r_areg) (iz s.RtlSem.r_breg)
+    (iz s.RtlSem.r_oreg) (if !intact then 1 else 0) (if !rest_zero then 1 else 0) (iz st.TbModel.t_time) (iz st.TbModel.t_cycles)
 
 (* c06mon <bin> <maxsteps>   (stdin = console input)
-   The ISA run of the image (extracted Isa.step from Isa.boot of the hw image words the header announces) with the
-   well-behavedness monitor of C06/C13 (TbModel.wb_mon, with the defined-word set kept in a hash table): every
-   instruction defined, fetches/loads only image words or words written earlier, step_safe (byte addresses < 800000, a
-   READ does not overwrite its own SVC, store addresses non-negative).
+   The ISA run of the image (extracted Isa.step from Isa.boot of the words the header announces, everything else zero --
+   which is also what hextb's memory holds since load() clears it) with the well-behavedness monitor of C06/C13
+   (TbModel.safe_mon): every instruction defined and step_safe (byte addresses < 800000, a READ does not overwrite its
+   own SVC, store addresses non-negative).  Which words the program reads plays no role any more.
    Output: END exit|cut|undef / RC <exit word as int> / CONSUMED n / OUT n bytes / STEPS n / WB 1|0 <reason> *)
 let mon_main () =
   let bin = Sys.argv.(2) in
   let maxsteps = int_of_string Sys.argv.(3) in
   let file = C02drv.read_file bin in
   let len = SS.length file in
-  let byte i = if i < len then Char.code (SS.get file i) else 0 in
-  ignore byte;
   let bytes = SL.init len (fun i -> zi (Char.code (SS.get file i))) in
   if not (TbModel.file_loads bytes) then begin
     P.printf "END rejected-by-the-loader\nRC 1\nCONSUMED 0\nOUT 0\nSTEPS 0\nWB 1\n"; exit 0 end;
-  (* the words both loaders read: those the header announces (TbModel.loaded_words); the defined region is exactly them *)
   let ws = TbModel.loaded_words bytes in
-  let hw = SL.length ws in
   let cons = let bf = Buffer.create 64 in (try while true do Buffer.add_channel bf stdin 1 done with End_of_file -> ()); Buffer.contents bf in
   let ncons = SS.length cons in
   let inp = ref { Isa.console = SL.init ncons (fun i -> zi (Char.code (SS.get cons i))); Isa.files = (fun _ -> []) } in
   let st = ref (Isa.boot ws) in
-  let written : (int, unit) Hashtbl.t = Hashtbl.create 1024 in
-  let defined a = (a >= 0 && a < hw) || Hashtbl.mem written a in
   let wb = ref "" in
   let flag r = if !wb = "" then wb := r in
   let out = Buffer.create 64 in
@@ -99,15 +97,10 @@ let mon_main () =
   while !fin = "" do
     if !steps >= maxsteps then fin := "cut" else begin
       let s = !st in
-      let acc = IsaMon.accesses s in
-      SL.iter (fun (k, a) -> match k with
-        | IsaMon.Store -> ()
-        | _ -> if not (defined (iz a)) then flag (P.sprintf "step-%d-reads-undefined-word-%d" !steps (iz a))) acc;
       match Isa.step s !inp with
       | Isa.Undefined _ -> fin := "undef"; flag (P.sprintf "step-%d-undefined" !steps)
       | Isa.Ok ((s', inp'), ev) ->
           if not (TbModel.step_safe s s' ev) then flag (P.sprintf "step-%d-not-safe(range/read-overwrites-svc)" !steps);
-          SL.iter (fun (k, a) -> match k with IsaMon.Store -> Hashtbl.replace written (iz a) () | _ -> ()) acc;
           st := s'; inp := inp'; incr steps;
           (match ev with
            | Isa.Exit c -> fin := "exit"; rc := iz (SimModel.to_int c)
